@@ -60,7 +60,7 @@ pub fn isolate<S: Serialize + Clone + Send + 'static>(
                 return match r {
                     Ok(r) => r,
                     Err((loc, msg)) => {
-                        if loc.starts_with("/repo/") || loc.contains("/rustc/") || loc.contains("/.cargo/registry/") {
+                        if crate::harness::is_decoder_location(&loc) {
                             Err(Violation {
                                 property: property.into(),
                                 check: check.into(),
@@ -104,7 +104,8 @@ pub fn isolate<S: Serialize + Clone + Send + 'static>(
 /// Violation class of a decoder panic: source file + message with numbers normalised (line numbers
 /// are left out so that unrelated edits to the file do not change the class).
 pub fn panic_class(loc: &str, msg: &str) -> String {
-    let file = loc.trim_start_matches("/repo/crates/").split(':').next().unwrap_or("").to_string();
+    let root = format!("{}/crates/", crate::harness::repo_root());
+    let file = loc.trim_start_matches(root.as_str()).trim_start_matches("/repo/crates/").split(':').next().unwrap_or("").to_string();
     let file = if let Some(i) = file.find("/library/") { format!("std{}", &file[i + 8..]) } else { file };
     let mut norm = String::new();
     let mut in_digits = false;
